@@ -60,7 +60,7 @@ func oracle(r *scen.Runner, sp *scen.Sprint) *harn.Failure {
 }
 
 var opts = scen.GenOpts{
-	World:        world.Opts{MaxFlows: 4, MaxNodes: 6, Languages: []string{"fra"}, Background: true, Voice: true, Adversarial: true, QueryGroups: true, WebhookRefs: true},
+	World:        world.Opts{MaxFlows: 4, MaxNodes: 6, Languages: []string{"fra"}, Background: true, Voice: true, Adversarial: true, QueryGroups: true, WebhookRefs: true, WaitHeavy: true},
 	Batch:        true,
 	StaleGroups:  true,
 	Statuses:     []string{"active", "active", "active", "blocked", "stopped", "archived"},
